@@ -32,7 +32,7 @@ ASSUMPTIONS = ["network, clock, executor and event loop are simulated (sim/); Cl
                "the three graph default profiles get load-balancing policy instances of their own (by default Cluster wraps the "
                "default profile's policy into them, so one policy object is notified four times per transition)",
                "invariants are evaluated at quiescent points (no runnable virtual thread at the current virtual time); "
-               "pool presence is evaluated after >= 1.5 s of quiet time and at the end",
+               "pool presence is evaluated right after connect and at the end (all nodes reachable for 6 s), and whenever listeners are told a host is up",
                "connection attempts take no virtual time (connect races are C45's subject)",
                "Cluster.sessions (a WeakSet iterated in memory-address order) is replaced by an insertion-ordered set and executor futures hash by creation number "
                "(the driver keeps them in sets and blocks on whichever the set yields first) so that a case replays identically"]
@@ -100,17 +100,25 @@ def interpret(case, ctx):
 
 
 def check_sequence(seq):
-    """notification sequence of one Host object -> None or the name of the first broken rule"""
-    prev = None
+    """notification sequence of one Host object -> None or the name of the first broken rule.
+    up/add and down must alternate (a removal in between does not count as coming up), nothing marks a removed
+    Host object up again, a host is removed once."""
+    state, removed = None, False
     for kind in seq:
-        if prev is not None:
-            if kind in ("up", "add") and prev in ("up", "add"):
-                return "%s-after-%s" % (kind, prev)
-            if kind == "down" and prev == "down":
-                return "down-after-down"
-            if prev == "remove":
+        if kind in ("up", "add"):
+            if removed:
                 return "%s-after-remove" % kind
-        prev = kind
+            if state == "U":
+                return "%s-after-up" % kind
+            state = "U"
+        elif kind == "down":
+            if state == "D":
+                return "down-after-remove" if removed else "down-after-down"
+            state = "D"
+        elif kind == "remove":
+            if removed:
+                return "remove-after-remove"
+            removed = True
     return None
 
 
@@ -264,7 +272,8 @@ def _run(case, ctx, sim):
             known = cluster.metadata.all_hosts()
             for si, s in enumerate(sessions):
                 for h, pool in list(s._pools.items()):
-                    if not pool.is_shutdown and not any(k is h for k in known):
+                    # (the dict key may be an older Host object of the same endpoint: Host equality is by endpoint)
+                    if not pool.is_shutdown and not any(k == h for k in known):
                         ctx.fail(["C25.removed-has-pool", removed_ctx.get(id(h), "never-removed")],
                                  "%s: host %s is no longer part of the cluster metadata (removed) but session %d still "
                                  "holds a live pool for it (host.is_up=%r)" % (where, h.endpoint.address, si, h.is_up))
@@ -318,7 +327,7 @@ def _run(case, ctx, sim):
         stable = False
         if kind == "advance":
             sim.advance(ev[1])
-            stable = ev[1] >= 1.5
+            stable = False      # (pool presence is judged at the end: a failed pool renewal is retried after a delay)
         elif kind == "conn_fail":
             a = addrs[ev[1] % n]
             s = sessions[ev[2] % len(sessions)]
